@@ -1639,9 +1639,9 @@ def plan(tier, seed):
         specs += [{'kind': 'random', 'what': 'roundtrip', 'seed': seed * 1000 + 200, 'n': 1500}]
         return specs
     specs = [{'kind': 'corpus'}] + [{'kind': 'single-cuts', 'base': i} for i in range(len(SHORT_BASES))]
-    specs += [{'kind': 'random', 'what': 'calls', 'seed': seed * 100000 + i, 'n': 2000} for i in range(30)]
-    specs += [{'kind': 'random', 'what': 'hostile', 'seed': seed * 100000 + 1000 + i, 'n': 2500} for i in range(12)]
-    specs += [{'kind': 'random', 'what': 'roundtrip', 'seed': seed * 100000 + 2000 + i, 'n': 12000} for i in range(3)]
+    specs += [{'kind': 'random', 'what': 'calls', 'seed': seed * 100000 + i, 'n': 2500} for i in range(40)]
+    specs += [{'kind': 'random', 'what': 'hostile', 'seed': seed * 100000 + 1000 + i, 'n': 3000} for i in range(16)]
+    specs += [{'kind': 'random', 'what': 'roundtrip', 'seed': seed * 100000 + 2000 + i, 'n': 12000} for i in range(4)]
     return specs
 
 
